@@ -291,3 +291,111 @@ theorem legacyGet_code (l : LegacyAcc) (F : Fn) (hbody : some F.body = expectedL
 end
 
 end O1722.Refine
+
+namespace O1722.Refine
+open O1722 O1722.C
+
+/-- The body of a legacy initialiser that only guards against NULL and calls the current one
+    (`avtp_crf_pdu_init`, `avtp_rvf_pdu_init`). -/
+def expectedLegacyInitBody (i : Init) : Option Stmt :=
+  match i.steps with
+  | [.callInit fn] =>
+    if i.legacy = true ∧ i.err = -22 ∧ i.ok = 0 then
+      some (.ite (.bin .eq .u64 (.var 0) (.lit 0)) errRet (.seq (.call none fn [.var 0]) (.ret (some (.lit 0)))))
+    else none
+  | _ => none
+
+section
+variable (e : Endian) (rom : Nat → Byte) (glob : String → Nat) (g : GenFormat) (tb : Nat)
+  (hrom : RomTable rom tb g.table) (hvalid : ∀ d ∈ g.table, d.Valid) (hglob : glob g.tableName = tb)
+include hrom hvalid hglob
+
+omit hrom hvalid hglob in
+theorem step_run_some (p : Nat) (st : InitStep) (hok : StepOK e g st) (m : Mem) : ∃ m', st.run g e p 0 m = some m' := by
+  cases st with
+  | memset0 _ len => exact ⟨_, rfl⟩
+  | setField fn fld fv value =>
+    obtain ⟨x, F, hx, hxf, _⟩ := hok
+    exact ⟨x.run g.table e m (some p) fv value, by simp [InitStep.run, hx, hxf]⟩
+  | setConst fn value =>
+    obtain ⟨x, F, hx, hxf, _⟩ := hok
+    exact ⟨x.run g.table e m (some p) 0 value, by simp [InitStep.run, hx, hxf]⟩
+  | setParam _ _ => cases hok
+  | callInit _ => cases hok
+  | checkedSet _ _ _ _ => cases hok
+
+omit hrom hvalid hglob in
+theorem runSteps_some (p : Nat) : ∀ (steps : List InitStep) (_hok : ∀ st ∈ steps, StepOK e g st) (m : Mem),
+    ∃ m', runSteps g e p 0 steps m = some m' := by
+  intro steps
+  induction steps with
+  | nil => intro _ m; exact ⟨m, rfl⟩
+  | cons st rest ih =>
+    intro hok m
+    obtain ⟨m1, h1⟩ := step_run_some e g p st (hok st (List.mem_cons_self ..)) m
+    obtain ⟨m2, h2⟩ := ih (fun st' h' => hok st' (List.mem_cons_of_mem _ h')) m1
+    exact ⟨m2, by simp [runSteps, h1, h2]⟩
+
+/-- **Legacy initialisers of the "guard + forward" shape, as C text**: `-EINVAL` and no effect on a
+    NULL PDU; otherwise exactly what the current initialiser does (whose C text is `init_code`'s
+    subject) and 0. -/
+theorem legacyInit_code (i : Init) (F : Fn) (hbody : some F.body = expectedLegacyInitBody i)
+    (fn : String) (hsteps : i.steps = [.callInit fn])
+    (i0 : Init) (F0 : Fn) (hi0 : g.inits.find? (fun j => j.fn == fn && !j.legacy) = some i0)
+    (hF0 : findFn (Gen.Cir.prog e) fn = some F0) (hb0 : some F0.body = expectedInitBody g i0)
+    (hok0 : ∀ st ∈ i0.steps, StepOK e g st) (hlen0 : i0.steps.length ≤ 6)
+    (pdu : Option Nat) (hpdu : ∀ p, pdu = some p → p ≠ 0 ∧ p + 1024 ≤ 18446744073709551616) (m : Mem) :
+    (exec (mkEnv e rom glob) 45 F.body (mkFrame [pdu.getD 0]) ⟨m, []⟩).map (fun r => (r.1, r.2.2.mem))
+      = (i.run g e m pdu 0).map (fun r => (.ret (Ty.ofInt .i32 r.2), r.1)) := by
+  unfold expectedLegacyInitBody at hbody
+  rw [hsteps] at hbody
+  simp only at hbody
+  split at hbody
+  · rename_i hc
+    obtain ⟨hleg, herr, hok⟩ := hc
+    rw [Option.some.inj hbody]
+    have hnc : ∀ st ∈ i0.steps, (match st with | InitStep.callInit _ => false | _ => true) = true := by
+      intro st hst
+      have := hok0 st hst
+      cases st <;> simp_all [StepOK]
+    cases pdu with
+    | none =>
+      have hc : evalE (mkEnv e rom glob) (mkFrame [(none : Option Nat).getD 0]) (.bin .eq .u64 (.var 0) (.lit 0)) = some 1 := by
+        simp [evalE, evalBin, b2n]
+      rw [ite_true (f := 44) hc (by decide)]
+      simp [errRet, exec, evalE, neg22, Init.run, hleg, herr]
+    | some p =>
+      obtain ⟨hp0, hpb⟩ := hpdu p rfl
+      have hc : evalE (mkEnv e rom glob) (mkFrame [(some p).getD 0]) (.bin .eq .u64 (.var 0) (.lit 0)) = some 0 := by
+        simp [evalE, evalBin, b2n, hp0]
+      rw [ite_false (f := 44) hc]
+      have h0 := init_code e rom glob g tb hrom hvalid hglob i0 F0 hb0 hok0 hlen0 (some p) (by intro q hq; cases hq; exact ⟨hp0, hpb⟩) m
+      have hleg0 : i0.legacy = false := by
+        have := List.find?_some hi0
+        simp only [Bool.and_eq_true, beq_iff_eq, Bool.not_eq_true'] at this
+        exact this.2
+      have hrun0 : (i0.run g e m (some p) 0).map (·.1) = (runSteps g e p 0 i0.steps m) := by
+        simp [Init.run, flatten_of_ok e rom glob g tb hrom hvalid hglob i0.steps hok0, hleg0, Option.map_map, Function.comp_def]
+      rw [hrun0] at h0
+      have hflat : g.flatten [InitStep.callInit fn] = some i0.steps := by
+        simp only [GenFormat.flatten, hi0]
+        split
+        · simp
+        · rename_i hne
+          exfalso; apply hne
+          rw [List.all_eq_true]
+          intro st hst
+          have := hok0 st hst
+          cases st <;> simp_all [StepOK]
+      obtain ⟨m', hrs⟩ := runSteps_some e g p i0.steps hok0 m
+      rw [hrs] at h0
+      obtain ⟨v, log, hcall⟩ := callFn_mem_of_exec (env := mkEnv e rom glob) (fn := fn) (vs := [(some p).getD 0])
+        (by rw [mkEnv_prog]; exact hF0) h0
+      have hcx := exec_call_of_callFn (dst := none) (L := mkFrame [(some p).getD 0]) (args := [.var 0])
+        (by simp [evalArgs, evalE]) (callFn_le _ (by decide : 41 ≤ 42) hcall)
+      rw [seq_next (f := 43) hcx]
+      simp [exec, evalE, setDst, Init.run, hsteps, hflat, hrs, hleg, hok, Ty.ofInt]
+  · cases hbody
+end
+
+end O1722.Refine
